@@ -27,6 +27,8 @@ def ev(e: ast.expr, env: dict[str, object]):
             return env[key]
         raise PredUnsupported(f"predicate mentions `{key}`, which is not one of the modelled quantities {sorted(env)}")
     if isinstance(e, (ast.Call, ast.Subscript)) and norm(e) in env:
+        if isinstance(e, ast.Call) and "__trace__" in env:
+            env["__trace__"].append(norm(e))  # the caller wants to know that (and when) the call is made
         return env[norm(e)]  # a modelled quantity spelled as a call or an item, e.g. `len(atoms)`
     if isinstance(e, ast.Tuple):
         return tuple(ev(x, env) for x in e.elts)
